@@ -94,6 +94,18 @@ def life(spec):
         except BrokenProcessPool:
             pass
         ex.shutdown(wait=True)
+    elif kind == "plain_broken_bigargs":
+        # the pool breaks while large call items are still queued behind a full pipe
+        ex = ProcessPoolExecutor(max_workers=1)
+        ex.submit(T.ident, 1).result()
+        fs = [ex.submit(T.die, 3)] + [ex.submit(T.ident, b"x" * 300000) for _ in range(spec["n"] + 2)]
+        for f in fs:
+            try:
+                f.result(timeout=60)
+            except BrokenProcessPool:
+                pass
+        ex.shutdown(wait=True)
+        del ex, fs, f
     elif kind == "plain_gc":
         ex = ProcessPoolExecutor(max_workers=w)
         ex.submit(T.ident, 1).result()
